@@ -1106,6 +1106,19 @@ func (t *State) procTodoBlkForWalk(todoBlocks []*pb.InternalBlock) (err error) {
 		// 将batch赋值到合约机的上下文
 		batch := t.ldb.NewBatch()
 
+		// 检查块内的utxo双花情况: 同一个batch里前面交易花掉的utxo在写盘前仍然能从表里查到
+		utxoKeysInBlock := map[string]bool{}
+		for _, tx = range todoBlk.Transactions {
+			for _, txInput := range tx.TxInputs {
+				utxoKey := utxo.GenUtxoKey(txInput.FromAddr, txInput.RefTxid, txInput.RefOffset)
+				if utxoKeysInBlock[utxoKey] {
+					return fmt.Errorf("found duplicated utxo in same block.blockid:%s,utxoKey:%s,err:%v",
+						showBlkId, utxoKey, ErrUTXODuplicated)
+				}
+				utxoKeysInBlock[utxoKey] = true
+			}
+		}
+
 		// 执行区块里面的交易
 		idx, length := 0, len(todoBlk.Transactions)
 		for idx < length {
